@@ -221,10 +221,10 @@ def _assignments(flags, tier):
     return [dict(zip(flags, vals)) for vals in itertools.product([False, True], repeat=len(flags))]
 
 
-def real_balance(sql, label):
-    """Parse with the REAL parser; returns (clean, final_balance, min_prefix)."""
+def real_balance(sql, label, flags=None):
+    """Parse with the REAL parser (indentation flags as in the candidate); returns (clean, final_balance, min_prefix)."""
     from sqlfluff.core import FluffConfig, Linter
-    lin = Linter(config=FluffConfig(overrides={"dialect": label}))
+    lin = Linter(config=FluffConfig(overrides={"dialect": label}, configs={"indentation": dict(flags or {})}))
     parsed = lin.parse_string(sql)
     tree = parsed.tree
     if tree is None:
@@ -238,7 +238,7 @@ def real_balance(sql, label):
     return clean, bal, mn
 
 
-def find_reproducer(label, keywords, limit=60):
+def find_reproducer(label, keywords, limit=60, flags=None):
     files = sorted(glob.glob(os.path.join(REPO, "test/fixtures/dialects", label, "*.sql")))
     scored = []
     for f in files:
@@ -252,7 +252,7 @@ def find_reproducer(label, keywords, limit=60):
             scored.append((-score, f, txt))
     for _, f, txt in sorted(scored)[:limit]:
         try:
-            clean, bal, mn = real_balance(txt, label)
+            clean, bal, mn = real_balance(txt, label, flags)
         except Exception:
             continue
         if clean and (bal != 0 or mn < 0):
@@ -294,7 +294,7 @@ def run_balance(label, tier):
             kws = set()
             for nd, vals, k in cul:
                 kws |= set(k)
-            rep = find_reproducer(label, sorted(kws)) if kws else None
+            rep = find_reproducer(label, sorted(kws), flags=asg) if kws else None
             desc = {"dialect": label, "flags": asg, "root_values": sorted(Av[g.root]),
                     "culprits": [f"{nd.obj.__name__}{vals}" for nd, vals, _ in cul][:6], "keywords": sorted(kws)[:10]}
             if rep:
@@ -312,7 +312,7 @@ def run_balance(label, tier):
 def replay_balance(cex):
     if "fixture" not in cex:
         return None
-    clean, bal, mn = real_balance(open(cex["fixture"], encoding="utf8").read(), cex["dialect"])
+    clean, bal, mn = real_balance(open(cex["fixture"], encoding="utf8").read(), cex["dialect"], cex.get("flags"))
     if clean and (bal != 0 or mn < 0):
         return f"{cex['fixture']} parses cleanly with indent balance {bal} (min prefix {mn})"
     return None
